@@ -26,11 +26,14 @@
         re-evaluated on every iteration).
       - `Option.Some(e)` (`enum_constructor` + `make_enum`), `Option.None`,
         `accept e` / `reject e` (the operand stays lazy until `make_enum` stores
-        it), `e?` (`question_mark`); record literals (`record`) and field access (`access`).
+        it), `e?` (`question_mark`); record literals (`record`) and field access (`access`);
+      - `match` (`r#match` / `match_case`): guard chains per discriminant with the `_` arms
+        woven in, in source order; shared arm blocks.
   * the temporary counter `tmp_idx` (both `tmp()` and `undropped_tmp()` bump it).
 
   Not modelled in this version (`lowerE` returns `none`): script-function
-  calls, `match`, `for`, user enum constructors, lists, f-strings; the `stack_slots` bookkeeping and the `drop` instructions (they
+  calls, `for`, user enum constructors, lists, f-strings; a `match` with a pattern naming a
+  variant the examinee's type does not have; the `stack_slots` bookkeeping and the `drop` instructions (they
   have no effect on the order of host calls).
 
   The semantics of structured MIR is the relation `ExecC` below (big-step, the
@@ -61,10 +64,11 @@ inductive Value
   | neg (x : Var)
   | callRt (f : Nat) (args : List Var)
   | disc (x : Var)                   -- `Value::Discriminant`
-  | cloneProj (x : Var) (i : Nat)    -- `Clone` of a place with one projection: variant field `i`
+  | cloneProj (x : Var) (i : Nat) (tag : Nat)   -- `Clone` of `x.Variant#i` (`tag` names the variant when printed)
   | cloneField (x : Var) (i : Nat)   -- `Clone` of `x.field_i` of a record
   deriving Repr, Inhabited
 
+mutual
 /-- Structured MIR. -/
 inductive Stm
   | assign (to : Var) (v : Value)
@@ -80,7 +84,20 @@ inductive Stm
   | assignField (to : Var) (i : Nat) (v : Value)
   /-- `switch x [(k, thn)] default els` on a discriminant -/
   | iteD (x : Var) (k : Nat) (thn els : List Stm)
-  deriving Repr, Inhabited
+  /-- `match`: `switch d [(k, chain_k)…] default dflt`; every chain ends by jumping to one of
+      the shared arm blocks `arms[i]` (an empty `dflt` stands for "no default") -/
+  | mtch (d : Var) (chains : List GChain) (dflt : List GStep) (arms : List (List Stm))
+/-- One link of a guard chain (`match_case`): bind the pattern's fields, then either jump
+    to the arm, or evaluate the guard and `switch g [(1, arm)] default next link`. -/
+inductive GStep
+  | plain (binds : List Stm) (arm : Nat)
+  | guarded (binds : List Stm) (gcode : List Stm) (g : Var) (arm : Nat)
+/-- the guard chain of one discriminant -/
+inductive GChain
+  | mk (disc : Nat) (steps : List GStep)
+end
+
+instance : Inhabited Stm := ⟨.ret (.t 0)⟩
 
 abbrev Code := List Stm
 
@@ -120,12 +137,22 @@ def evalValue (σ : Store) : Value → Option (Trace × Val)
     let vs := args.map σ
     (hostSem f vs).map (fun v => ([⟨f, vs⟩], v))
   | .disc x => (discOf (σ x)).map (fun d => ([], .int d))
-  | .cloneProj x i => (payload (σ x) i).map (fun v => ([], .int v))
+  | .cloneProj x i _ => (payload (σ x) i).map (fun v => ([], .int v))
   | .cloneField x i => (payload (σ x) i).map (fun v => ([], .int v))
 
 inductive Outcome
   | normal (σ : Store)
   | returned (v : Val)
+
+/-- how a guard chain ends: an arm is selected, or a guard left the function -/
+inductive GOut
+  | selected (arm : Nat) (σ : Store)
+  | returned (v : Val)
+
+/-- the chain the switch selects for discriminant `k` (the default otherwise) -/
+def findChain : List GChain → List GStep → Nat → List GStep
+  | [], dflt, _ => dflt
+  | .mk d steps :: rest, dflt, k => if d = k then steps else findChain rest dflt k
 
 mutual
 /-- Big-step execution of one structured statement. -/
@@ -149,6 +176,24 @@ inductive ExecS : Store → Stm → Trace → Outcome → Prop
       ExecS σ (.assignField x i v) t (.normal (σ.set x val))
   | iteDThen {σ x k thn els t o} : σ x = .int k → ExecC σ thn t o → ExecS σ (.iteD x k thn els) t o
   | iteDElse {σ x k d thn els t o} : σ x = .int d → d ≠ k → ExecC σ els t o → ExecS σ (.iteD x k thn els) t o
+  | mtchArm {σ d k chains dflt arms t1 a σ1 code t2 o} :
+      σ d = .int (k : Nat) → ExecG σ (findChain chains dflt k) t1 (.selected a σ1) → arms[a]? = some code →
+      ExecC σ1 code t2 o → ExecS σ (.mtch d chains dflt arms) (t1 ++ t2) o
+  | mtchGuardRet {σ d k chains dflt arms t v} :
+      σ d = .int (k : Nat) → ExecG σ (findChain chains dflt k) t (.returned v) →
+      ExecS σ (.mtch d chains dflt arms) t (.returned v)
+/-- … of a guard chain -/
+inductive ExecG : Store → List GStep → Trace → GOut → Prop
+  | plain {σ binds a rest t σ1} : ExecC σ binds t (.normal σ1) → ExecG σ (.plain binds a :: rest) t (.selected a σ1)
+  | guardTrue {σ binds gcode g a rest tb σ1 tg σ2} :
+      ExecC σ binds tb (.normal σ1) → ExecC σ1 gcode tg (.normal σ2) → σ2 g = .bool true →
+      ExecG σ (.guarded binds gcode g a :: rest) (tb ++ tg) (.selected a σ2)
+  | guardFalse {σ binds gcode g a rest tb σ1 tg σ2 t3 o} :
+      ExecC σ binds tb (.normal σ1) → ExecC σ1 gcode tg (.normal σ2) → σ2 g = .bool false →
+      ExecG σ2 rest t3 o → ExecG σ (.guarded binds gcode g a :: rest) (tb ++ tg ++ t3) o
+  | guardRet {σ binds gcode g a rest tb σ1 tg v} :
+      ExecC σ binds tb (.normal σ1) → ExecC σ1 gcode tg (.returned v) →
+      ExecG σ (.guarded binds gcode g a :: rest) (tb ++ tg) (.returned v)
 /-- … of a sequence: a `return` ends it. -/
 inductive ExecC : Store → Code → Trace → Outcome → Prop
   | nil {σ} : ExecC σ [] [] (.normal σ)
@@ -174,6 +219,45 @@ def atvNext (v : Value) (c : Nat) : Nat :=
   match v with
   | .move _ => c
   | _ => c + 1
+
+/-- the variant indices the arms' patterns name (`all_discriminants`) -/
+def discsOf : Arms → List Nat
+  | .nil => []
+  | .arm (.variant k _) _ rest => k :: discsOf rest
+  | .arm .wild _ rest => discsOf rest
+  | .armG (.variant k _) _ _ rest => k :: discsOf rest
+  | .armG .wild _ _ rest => discsOf rest
+
+def hasWild : Arms → Bool
+  | .nil => false
+  | .arm .wild _ _ => true
+  | .arm _ _ rest => hasWild rest
+  | .armG .wild _ _ _ => true
+  | .armG _ _ _ rest => hasWild rest
+
+/-- which arms a guard chain contains -/
+inductive Sel
+  | off                 -- no chain is built
+  | wildOnly            -- the default chain: `_` arms only
+  | variant (k : Nat)   -- the chain of discriminant `k`: its arms and the `_` arms
+  deriving DecidableEq, Repr
+
+/-- Does an arm belong to the chain? -/
+def selects : Sel → Pat → Bool
+  | .off, _ => false
+  | _, .wild => true
+  | .variant k, .variant k' _ => k == k'
+  | .wildOnly, .variant _ _ => false
+
+/-- `x_b := clone(examinee.Variant#j)` for the pattern's binders -/
+def bindsCode : List Nat → Var → Nat → Nat → List Stm
+  | [], _, _, _ => []
+  | b :: bs, xe, tag, j => .assign (.x b) (.cloneProj xe j tag) :: bindsCode bs xe tag (j + 1)
+
+def patBinds (p : Pat) (xe : Var) (tagBase : Nat) : List Stm :=
+  match p with
+  | .wild => []
+  | .variant k bs => bindsCode bs xe (tagBase + k) 0
 
 /-- `shortcircuit_binop`: left stored in `tmp`; `switch tmp [(other_if, other)] default cont`;
     in `other` the right operand is evaluated and stored in `tmp`
@@ -299,7 +383,7 @@ def lowerE : Expr → Nat → Option (Code × Value × Nat)
     let c := atvNext ve c
     pure (ce ++ me ++ [.assign (.t c) (.disc xe),
                        .iteD (.t c) 0 [] [.setDisc (.t (c + 1)) (.opt none), .ret (.t (c + 1))]],
-          .cloneProj xe 0, c + 2)
+          .cloneProj xe 0 0, c + 2)
   | .record fs, c => do
     -- `record`: the result temporary is allocated first; each field is lowered and stored
     -- (lazily, straight into the field) before the next one. The real MIR has no instruction
@@ -316,7 +400,64 @@ def lowerE : Expr → Nat → Option (Code × Value × Nat)
     let xe := atvVar ve c
     let c := atvNext ve c
     pure (ce ++ me, .cloneField xe i, c)
+  | .mtch s isOpt arms, c =>
+    -- `r#match`: examinee materialised, discriminant read, one guard chain per discriminant
+    -- (here in ascending order; the compiler iterates a HashSet), the default chain, the
+    -- result temporary, then the arm bodies in source order
+    let nV := if isOpt then 2 else 3
+    let tagBase := if isOpt then 0 else 10
+    let ds := discsOf arms
+    if ds.any (fun k => decide (nV ≤ k)) then none else do
+    let (ce, ve, c) ← lowerE s c
+    let me := atvCode ve c
+    let xe := atvVar ve c
+    let c := atvNext ve c
+    let d := Var.t c
+    let (ch0, c0) ← lowerChain arms (if ds.contains 0 then .variant 0 else .off) xe tagBase 0 (c + 1)
+    let (ch1, c1) ← lowerChain arms (if ds.contains 1 then .variant 1 else .off) xe tagBase 0 c0
+    let (ch2, c2) ← lowerChain arms (if ds.contains 2 then .variant 2 else .off) xe tagBase 0 c1
+    -- the default case exists only if some variant has no case of its own
+    let covered := (List.range nV).all (fun k => ds.contains k)
+    let (dflt, c3) ← lowerChain arms (if hasWild arms && !covered then .wildOnly else .off) xe tagBase 0 c2
+    let out := Var.t c3
+    let (codes, c4) ← lowerArms arms out (c3 + 1)
+    let chains := (if ds.contains 0 then [GChain.mk 0 ch0] else [])
+      ++ (if ds.contains 1 then [GChain.mk 1 ch1] else []) ++ (if ds.contains 2 then [GChain.mk 2 ch2] else [])
+    pure (ce ++ me ++ [.assign d (.disc xe), .mtch d chains dflt codes], .move out, c4)
   | _, _ => none
+
+/-- `match_case`: the guard chain of one discriminant — for every arm of the chain, in source
+    order: bind the fields; then jump to the arm, or lower and materialise the guard and
+    `switch`. Arms after an unguarded one are still lowered (dead blocks, but they take
+    temporaries). -/
+def lowerChain : Arms → Sel → Var → Nat → Nat → Nat → Option (List GStep × Nat)
+  | .nil, _, _, _, _, c => some ([], c)
+  | .arm p _ rest, sel, xe, tb, idx, c =>
+    if selects sel p then do
+      let (steps, c) ← lowerChain rest sel xe tb (idx + 1) c
+      pure (.plain (patBinds p xe tb) idx :: steps, c)
+    else lowerChain rest sel xe tb (idx + 1) c
+  | .armG p g _ rest, sel, xe, tb, idx, c =>
+    if selects sel p then do
+      let (cg, vg, c) ← lowerE g c
+      let mg := atvCode vg c
+      let xg := atvVar vg c
+      let c := atvNext vg c
+      let (steps, c) ← lowerChain rest sel xe tb (idx + 1) c
+      pure (.guarded (patBinds p xe tb) (cg ++ mg) xg idx :: steps, c)
+    else lowerChain rest sel xe tb (idx + 1) c
+
+/-- the arm bodies, in source order, each storing its value in the result temporary -/
+def lowerArms : Arms → Var → Nat → Option (List Code × Nat)
+  | .nil, _, c => some ([], c)
+  | .arm _ body rest, out, c => do
+    let (cb, xb, c) ← lowerBlock body c
+    let (codes, c) ← lowerArms rest out c
+    pure ((cb ++ [.assign out (.move xb)]) :: codes, c)
+  | .armG _ _ body rest, out, c => do
+    let (cb, xb, c) ← lowerBlock body c
+    let (codes, c) ← lowerArms rest out c
+    pure ((cb ++ [.assign out (.move xb)]) :: codes, c)
 
 /-- the fields of a record literal, in source order: field `i` lowered, then stored in `to.field_i` -/
 def lowerFields : Exprs → Var → Nat → Nat → Option (Code × Nat)
